@@ -135,4 +135,4 @@ def prop(case):
     return Obs(interesting and any_known, labels, checks=nchecks)
 
 
-PARTS = [Part('simmv', prop, strategy=cases, quick=(8, 250), thorough=(16, 12000))]
+PARTS = [Part('simmv', prop, strategy=cases, quick=(8, 700), thorough=(16, 12000))]
